@@ -61,6 +61,7 @@ pub fn child(args: &[String]) -> ! {
                     page_cache: false,
                     fs_seed: rng.next_u64(),
                     capacity: None,
+                    dio_align: None,
                 };
                 let (mut h, _) = gen_history(&mut rng, &gc);
                 h.push(Op::Crash);
